@@ -305,22 +305,29 @@ def proposalLoop : Nat → Chain → Chain
     let ch' := proposalRound ch
     if countExcluded ch' == countExcluded ch then ch' else proposalLoop fuel ch'
 
+/-- position of the init function in the list, if there is one -/
+def initPosOf (funcs : List CP) : Option Nat :=
+  (funcs.zip (List.range funcs.length)).findSome? fun (c, i) => if c.cls == .initFunc then some i else none
+
+/-- include.go:78-137: first flow computation and validation with nothing excluded -/
+def firstValidation (ti : TyInfo) (funcs : List CP) (cannot0 : List Nat := []) : Except IncErr Chain :=
+  validate true (providesReturns ti (initState funcs cannot0) (initPosOf funcs))
+
+/-- include.go:139-192: drop what cannot be included, clusters, unused providers, trial eliminations -/
+def pruneStages (ch : Chain) : Chain :=
+  let ch := ch.map fun f => if f.cannot then { f with excluded := true, inc := false } else f
+  let ch := clusters ch
+  let n := ch.length
+  let ch := eliminateUnused (n * n + n + 8) (List.range n) ch
+  let ch := proposalLoop (n + 1) ch
+  ch.map fun f => { f with cannot := f.excluded }
+
 /-- `computeDependenciesAndInclusion` (after reorder) up to the final recomputation of the flows
     over the survivors (include.go:194-212); what is left is the final validation -/
 def inclusionBeforeFinal (ti : TyInfo) (funcs : List CP) (cannot0 : List Nat := []) : Except IncErr Chain :=
-  let initPos := (funcs.zip (List.range funcs.length)).findSome? fun (c, i) => if c.cls == .initFunc then some i else none
-  let ch := initState funcs cannot0
-  let ch := providesReturns ti ch initPos
-  match validate true ch with
+  match firstValidation ti funcs cannot0 with
   | .error e => .error e
-  | .ok ch =>
-    let ch := ch.map fun f => if f.cannot then { f with excluded := true, inc := false } else f
-    let ch := clusters ch
-    let n := ch.length
-    let ch := eliminateUnused (n * n + n + 8) (List.range n) ch
-    let ch := proposalLoop (n + 1) ch
-    let ch := ch.map fun f => { f with cannot := f.excluded }
-    .ok (providesReturns ti ch initPos)
+  | .ok ch => .ok (providesReturns ti (pruneStages ch) (initPosOf funcs))
 
 /-- `computeDependenciesAndInclusion` (after reorder) -/
 def computeInclusion (ti : TyInfo) (funcs : List CP) (cannot0 : List Nat := []) : Except IncErr Chain :=
